@@ -8,6 +8,7 @@ CONSTANTS
   MaxK = 1
   MaxB = 2
   ErrKinds = {"full", "empty"}
+  FixKeys = TRUE
 INVARIANT DumpWireInv
 INVARIANT InvEmptyErrorRoundTrip
 INVARIANT InvRejectExact
